@@ -229,6 +229,9 @@ pub struct ProbeStat {
     pub max_end: AtomicU64,
     pub min_start: AtomicU64,
     pub wave_len: AtomicU64,
+    /// LinearProbe only: one entry per call, 0 = window starts in the zero pre-roll, 1 = consecutive
+    /// supplied frames, 2 = poisoned (not consecutive supplied frames)
+    pub log: std::sync::Mutex<Vec<u8>>,
 }
 impl ProbeStat {
     pub fn new() -> Arc<ProbeStat> {
@@ -272,6 +275,15 @@ impl<T: SampleX> SincInterpolator<T> for RangeProbe<T> {
     }
 }
 
+/// base value of the index signal used with the LinearProbe: x[n] = INDEX_BASE + n, so that the
+/// zero pre-roll of a fresh resampler is distinguishable from supplied frames
+pub const INDEX_BASE: f64 = 1000.0;
+/// A poisoned window reports an instant that is off by PROBE_POISON / oversampling frames. A point
+/// whose blend weight is at rounding level (<= ~4 ulp(position) x oversampling, as happens when the
+/// position is within rounding of a grid point) then moves the output by <= 32 ulp, below the
+/// spacing tolerance of 256 ulp; any real weight (>= 1e-6) moves it by orders of magnitude more.
+pub const PROBE_POISON: f64 = 8.0;
+
 pub struct LinearProbe {
     len: usize,
     os: usize,
@@ -293,8 +305,29 @@ impl<T: SampleX> SincInterpolator<T> for LinearProbe {
         }
         let first = wave[index].f64v();
         let last = wave[index + self.len - 1].f64v();
-        if (last - first - (self.len - 1) as f64).abs() > 1e-6 {
+        let mut bad = false;
+        let mut status = 0u8;
+        if first >= INDEX_BASE {
+            status = 1;
+            // window starts in supplied frames: it must hold `len` consecutive supplied frames
+            s.max_end.store(1, Ordering::Relaxed);
+            if (last - first - (self.len - 1) as f64).abs() > 1e-6 {
+                bad = true;
+            }
+        } else if s.max_end.load(Ordering::Relaxed) == 1 && !(last >= INDEX_BASE) {
+            // after the pre-roll is over no window may lie entirely in never-supplied storage
+            bad = true;
+        }
+        if bad {
+            status = 2;
+        }
+        s.log.lock().unwrap().push(status);
+        if bad {
+            // A window that is not made of consecutive supplied frames poisons the point: if the
+            // blend gives it any weight, the reported instant is visibly wrong (a point with weight
+            // exactly zero, as happens for positions exactly on the grid, has no influence).
             s.noncontig.fetch_add(1, Ordering::Relaxed);
+            return T::of64(first + (subindex as f64 + PROBE_POISON) / self.os as f64);
         }
         T::of64(first + subindex as f64 / self.os as f64)
     }
